@@ -1197,14 +1197,22 @@ def _get_final_crystal_lattices(model_config, prefitting_model_config,
   total_feature_use = model_config.num_lattices * model_config.lattice_rank
   remaining_uses = total_feature_use - num_features
   remaining_scores = np.sum(importance_scores)
+  remaining_features = num_features
   for feature in np.argsort(-importance_scores):
-    added_uses = int(
-        round(remaining_uses * importance_scores[feature] / remaining_scores))
+    if importance_scores[feature] > 0:
+      share = importance_scores[feature] / remaining_scores
+    else:
+      # Scores are visited in decreasing order, so every feature still to be
+      # allocated has zero importance (the ratio above would be 0/0): split the
+      # remaining uses evenly among them.
+      share = 1.0 / remaining_features
+    added_uses = int(round(remaining_uses * share))
     # Each feature cannot be used more than once in a finalized lattice.
     added_uses = min(added_uses, model_config.num_lattices - 1)
     features_uses[feature] += added_uses
     remaining_uses -= added_uses
     remaining_scores -= importance_scores[feature]
+    remaining_features -= 1
   if _VERIF:
     _VERIF_TRACE.append(('features_uses', [int(u) for u in features_uses]))
   assert np.sum(features_uses) == total_feature_use
